@@ -600,3 +600,25 @@ for _k in (1, 2, 3, 4, 5):
     benign_patch('ben27-r%d' % _k, ['C19', 'C20', 'C08'])       # oxmpl-js: f64_property helper, let-else in goal callbacks, macro-generated checker impls, map/map_err in sample(), merged match in setup
     benign_patch('ben28-r%d' % _k, ALL)                         # RRT/RRT*: sample_target fn, Nearest struct via fold, store_problem/reset_tree (&mut self helpers), choose_parent + filter/map/collect neighbours, rewired_cost + successors
     benign_patch('ben29-r%d' % _k, ALL)                         # compound/SE2/SE3: weighted_norm(closure), enumerate loops, getters via accessors, guard clause + hoisted constructors, generic downcast helpers
+
+# ---------------------------------------------------------------- round 11
+seeded('seeded-RBC02-get-or-insert-keeps-first-problem', ['C02', 'C08'], ['C02.reroot'])
+seeded('seeded-RBC05-so2-interpolate-long-way-when-bounded', ['C05', 'C10'], ['C10.arc'])
+seeded('seeded-RBC06-branch-cost-walk-rewire-cycle', ['C06', 'C17'], ['C06.loops'])
+seeded('seeded-RBC11-normalise-after-the-bounds-test', ['C11'], ['C11.accept'])
+seeded('seeded-RBC12-zero-magnitude-cutoff-min-positive', ['C12'], ['C12.unit'])
+seeded('seeded-RBC16-fold-last-of-equally-near', ['C16', 'C05'], ['C16.nearest'])
+seeded('seeded-RBC17-motion-verdict-reused-in-reverse', ['C17', 'C03'], ['C17.rewire'])
+seeded('seeded-RBC18-goal-test-at-discovery-only', ['C18'], ['C18.bfs'])
+seeded('seeded-RBC19-wrapper-draws-a-goal-sample', ['C19'], ['C19.callbacks'])
+seeded('seeded-RBC20-baseexception-counts-as-satisfied', ['C20'], ['C20.goal'])
+for _n in ('ben30-r1', 'ben30-r2', 'ben30-r3', 'ben30-r5', 'ben31-r1', 'ben31-r2', 'ben31-r3', 'ben31-r4',
+           'ben32-r1', 'ben32-r2', 'ben32-r4', 'ben32-r5'):
+    benign_patch(_n, ALL)                                       # PRM / RRT-Connect / simple spaces, moderately invasive (the three not followed are in selftest/benign/unsupported, DESIGN 10.22)
+# the two genuine defects repaired in round 11, re-introduced: the rules that found them must fire again
+CASES.append({'name': 'c12-unit-overflow-reintroduced', 'props': ['C12'], 'expect': ['C12.unit'],
+              'edits': [('oxmpl/src/base/states/so3_state.rs', '} else if norm.is_infinite() {', '} else if norm.is_infinite() && norm < 0.0 {')]})
+CASES.append({'name': 'c12-sample-width-reintroduced', 'props': ['C12', 'C11'], 'expect': ['C12.sample'],
+              'edits': [('oxmpl/src/base/spaces/real_vector_state_space.rs', ' || !(upper - lower).is_finite()', '')]})
+CASES.append({'name': 'benign-c12-cutoff-1e-12', 'props': ['C12', 'C11'], 'expect': [],
+              'edits': [('oxmpl/src/base/states/so3_state.rs', 'if norm < 1e-9 {', 'if norm < 1e-12 {')]})
